@@ -164,6 +164,57 @@ def lazy_cache(rel, cls, fn, attr):
     raise Fail('unrecognised cache shape')
 
 
+# ---- (c') every function of the library that stores to a class-level attribute, and whether it publishes an empty container first
+def class_level_stores():
+    sites = []
+    for rel in lib_files():
+        tree = parse(rel)
+        for fn in [n for n in ast.walk(tree) if isinstance(n, ast.FunctionDef)]:
+            aliases = {'cls'}
+            for n in ast.walk(fn):
+                if isinstance(n, ast.Assign) and len(n.targets) == 1 and isinstance(n.targets[0], ast.Name):
+                    v = n.value
+                    if isinstance(v, ast.Attribute) and v.attr == '__class__':
+                        aliases.add(n.targets[0].id)
+                    if isinstance(v, ast.Call) and isinstance(v.func, ast.Name) and v.func.id == 'type':
+                        aliases.add(n.targets[0].id)
+
+            def class_obj(e):
+                if isinstance(e, ast.Name) and (e.id in aliases or e.id[:1].isupper()):
+                    return True
+                if isinstance(e, ast.Attribute) and e.attr == '__class__':
+                    return True
+                if isinstance(e, ast.Call) and isinstance(e.func, ast.Name) and e.func.id == 'type':
+                    return True
+                return False
+            stores = []
+            for n in ast.walk(fn):
+                if isinstance(n, (ast.Assign, ast.AugAssign)):
+                    tg = n.targets if isinstance(n, ast.Assign) else [n.target]
+                    for t in tg:
+                        if isinstance(t, ast.Attribute) and class_obj(t.value):
+                            stores.append((t.attr, n.lineno, n.value))
+            if not stores:
+                continue
+            muts = {}
+            for n in ast.walk(fn):
+                if isinstance(n, ast.Call) and isinstance(n.func, ast.Attribute) and n.func.attr in ('append', 'extend', 'insert', 'update', 'add', 'setdefault', 'pop', 'remove', 'clear'):
+                    t = n.func.value
+                    if isinstance(t, ast.Attribute) and class_obj(t.value):
+                        muts.setdefault(t.attr, []).append(n.lineno)
+                if isinstance(n, ast.Assign):
+                    for t in n.targets:
+                        if isinstance(t, ast.Subscript) and isinstance(t.value, ast.Attribute) and class_obj(t.value.value):
+                            muts.setdefault(t.value.attr, []).append(n.lineno)
+            for attr, ln, val in stores:
+                empty = (isinstance(val, (ast.List, ast.Dict, ast.Set)) and not (getattr(val, 'elts', None) or getattr(val, 'keys', None))) or \
+                        (isinstance(val, ast.Call) and isinstance(val.func, ast.Name) and val.func.id in ('list', 'dict', 'set') and not val.args)
+                later = [m for m in muts.get(attr, []) if m > ln]
+                shape = 'PublishThenFill' if later else 'SingleStore'
+                sites.append((rel, fn.name, fn.lineno, fn.end_lineno, attr, ln, shape))
+    return sorted(set(sites))
+
+
 # ---- (d) what __deepcopy__ rebuilds the copy from
 def deepcopy_ir():
     f = find_func(parse('musicxml/xmlelement/xmlelement.py'), 'XMLElement', '__deepcopy__')
@@ -250,6 +301,12 @@ def main():
         caches.append((cls, shape, pub, muts))
     side['caches'] = caches
     o.append('Definition cache_sites : list (string * cache_shape) := [' + '; '.join('(%s, %s)' % (cq(c), s) for c, s, _, _ in caches) + '].')
+    cls_sites = class_level_stores()
+    side['class_level_stores'] = cls_sites
+    o.append('(* every store to a class-level attribute in the library: file, function, attribute, line, shape *)')
+    o.append('Inductive store_shape := SPublishThenFill | SSingleStore.')
+    o.append('Definition class_level_stores : list (string * string * string * N * store_shape) := [' + ';\n '.join(
+        '(%s, %s, %s, %d%%N, %s)' % (cq(f), cq(fn), cq(a), ln, 'S' + sh) for f, fn, _, _, a, ln, sh in cls_sites) + '].')
     try:
         kw, later = deepcopy_ir()
         side['deepcopy'] = {'ctor_kwargs': kw, 'later': later}
